@@ -68,10 +68,16 @@ def call(l, a):
     if op == "extend":
         return l.extend([to_py(x) for x in a["items"]])
     if op == "add":
+        if a.get("via") == "iadd":
+            l += [to_py(x) for x in a["items"]]      # the augmented form of +, with plain dicts on the right
+            return l
         return l + di.ListOfDicts([to_py(x) for x in a["items"]])
     if op == "insert":
         return l.insert(a["i"], to_py(a["item"]))
     if op == "mul":
+        if a.get("via") == "imul":
+            l *= a["n"]
+            return l
         return l * a["n"]
     if op == "reverse":
         return l.reverse()
@@ -153,6 +159,10 @@ def run(ctx):
     count = {}
 
     def one(lst, a):
+        if a["op"] == "add" and rng.random() < 0.5:
+            a = dict(a, via="iadd")
+        if a["op"] == "mul" and a["n"] >= 0 and rng.random() < 0.5:
+            a = dict(a, via="imul")
         rec, out = execute(lst, a)
         records.append(rec)
         count[a["op"]] = count.get(a["op"], 0) + 1
